@@ -369,3 +369,24 @@ Proof.
   intros bs l k b H. apply (drun_clean l [] (init_dworld bs) k b); [|exact H].
   constructor; cbn; intros; try apply okb_nil. contradiction.
 Qed.
+
+(* ---- histories with clean renames (non-vacuity of the rename-inclusive theorem) ------------------------- *)
+From TV.Fs Require Import FsKnown.
+(* a file renamed within its directory, the rename flushed, then a crash: the new name is durable *)
+Definition hd_rename_flushed : list op :=
+  [Mkdir [1]; SyncDir []; Open 1 [1;2] true true false false true false; WriteAt 1 0 [65;66] false; SyncAll 1; Close 1;
+   SyncDir [1]; Rename [1;2] [1;3]; Stat [1;3]; SyncDir [1]; Crash []; Slurp [1;3]; Stat [1;2]].
+(* a file renamed over another one, crash before any directory sync: both old files are back *)
+Definition hd_rename_over_rolled_back : list op :=
+  [Open 1 [2] true true false false true false; WriteAt 1 0 [65] false; SyncAll 1; Close 1;
+   Open 2 [3] true true false false true false; WriteAt 2 0 [66;67] false; SyncAll 2; Close 2; SyncDir [];
+   Rename [2] [3]; Slurp [3]; Readdir []; Crash []; Slurp [3]; Slurp [2]; SyncDir []].
+
+Lemma renames_nonvacuous_lemma :
+  forallb c07r_op hd_rename_flushed = true /\ ksafe 0 hd_rename_flushed = true /\
+  snd (run (init_world 0) hd_rename_flushed) =
+    [OOk; OOk; OOk; ONum 2; OOk; OOk; OOk; OOk; OFile 2; OOk; OOk; OBytes [65; 66]; OErr ENOENT] /\
+  forallb c07r_op hd_rename_over_rolled_back = true /\ ksafe 0 hd_rename_over_rolled_back = true /\
+  snd (run (init_world 0) hd_rename_over_rolled_back) =
+    [OOk; ONum 1; OOk; OOk; OOk; ONum 2; OOk; OOk; OOk; OOk; OBytes [65]; ONames [3]; OOk; OBytes [66; 67]; OBytes [65]; OOk].
+Proof. vm_compute. repeat split; reflexivity. Qed.
